@@ -9,6 +9,8 @@ import (
 	"github.com/bronlabs/bron-crypto/pkg/base"
 	"github.com/bronlabs/bron-crypto/pkg/base/algebra"
 	"github.com/bronlabs/bron-crypto/pkg/base/polynomials"
+	"github.com/bronlabs/bron-crypto/pkg/base/serde"
+	"github.com/bronlabs/bron-crypto/pkg/base/utils"
 	"github.com/bronlabs/bron-crypto/pkg/base/utils/mathutils"
 	"github.com/bronlabs/bron-crypto/pkg/proofs/dlog"
 	"github.com/bronlabs/bron-crypto/pkg/proofs/sigma"
@@ -93,6 +95,23 @@ type Commitment[G algebra.PrimeGroupElement[G, S], S algebra.PrimeFieldElement[S
 	A G `cbor:"a"`
 }
 
+type commitmentDTO[G algebra.PrimeGroupElement[G, S], S algebra.PrimeFieldElement[S]] struct {
+	A G `cbor:"a"`
+}
+
+// UnmarshalCBOR deserialises and validates a commitment.
+func (a *Commitment[G, S]) UnmarshalCBOR(data []byte) error {
+	dto, err := serde.UnmarshalCBOR[*commitmentDTO[G, S]](data)
+	if err != nil {
+		return errs.Wrap(err).WithMessage("cannot unmarshal commitment")
+	}
+	if dto == nil || utils.IsNil(dto.A) {
+		return ErrInvalidArgument.WithMessage("commitment group element is nil")
+	}
+	a.A = dto.A
+	return nil
+}
+
 // Bytes serialises the commitment to a byte slice.
 func (a *Commitment[G, S]) Bytes() []byte {
 	var d []byte
@@ -112,6 +131,23 @@ type State[S algebra.PrimeFieldElement[S]] struct {
 // Response is the prover's answer to the verifier's challenge.
 type Response[S algebra.PrimeFieldElement[S]] struct {
 	Z S `cbor:"z"`
+}
+
+type responseDTO[S algebra.PrimeFieldElement[S]] struct {
+	Z S `cbor:"z"`
+}
+
+// UnmarshalCBOR deserialises and validates a response.
+func (z *Response[S]) UnmarshalCBOR(data []byte) error {
+	dto, err := serde.UnmarshalCBOR[*responseDTO[S]](data)
+	if err != nil {
+		return errs.Wrap(err).WithMessage("cannot unmarshal response")
+	}
+	if dto == nil || utils.IsNil(dto.Z) {
+		return ErrInvalidArgument.WithMessage("response scalar is nil")
+	}
+	z.Z = dto.Z
+	return nil
 }
 
 // Bytes serialises the response to a byte slice.
